@@ -245,7 +245,7 @@ func (e *Exec) checkMapAccess(st *State, m ssa.Value, write bool, instr ssa.Inst
 // of a local cell (directly or through closure bindings): that cell is no
 // longer preserved across heap havoc.
 func (e *Exec) escapeVal(st *State, v Val) {
-	if v.Loc != nil && v.Loc.Local {
+	if v.Loc != nil && v.Loc.Local && !v.Loc.WriteOnce {
 		if cv, ok := st.cells[v.Loc.Ref]; ok {
 			// spill the cell into the heap arrays: from now on it can be modified by others
 			delete(st.cells, v.Loc.Ref)
